@@ -504,6 +504,9 @@ func runUnit(id, hdir, scratch string, u UnitSpec, o runOpts, listed map[string]
 				for k, v := range u.Stubs {
 					if f := main.Func(v); f != nil {
 						cfg.stubs[k] = f
+					} else {
+						fmt.Fprintf(os.Stderr, "stub %s: harness function %s not found\n", k, v)
+						cfg.stubMissing = append(cfg.stubMissing, v)
 					}
 				}
 			}
